@@ -470,7 +470,7 @@ def _life_causes(body, cov, depth=0):
 
     def escapes(b):  # does an exception escape this module body?
         for it in b:
-            if it[0] == "raise":
+            if it[0] in ("raise", "evraise"):
                 return True
             if it[0] == "exit":
                 return False
@@ -481,7 +481,7 @@ def _life_causes(body, cov, depth=0):
 
     def walk(b, d):
         for it in b:
-            if it[0] == "raise":
+            if it[0] in ("raise", "evraise"):
                 if cov:
                     causes.add("C12:coverage_replaces_exception")
                 return
@@ -554,6 +554,13 @@ def check_C12(ctx):
                 ctx.violation("C12:coverage_files", "%d coverage files for %d engines" % (c["covfiles"], len({k for k, _ in c["observed"]})), {"lifecycle_case": c})
             if c["stray"]:
                 ctx.violation("C12:stray_idmap", "a file -dynapyt.json was created in the working directory (coverage accounting of runtime_event('', -1))", {"lifecycle_case": c})
+            later = {}
+            for k_, w_ in c["observed"]:
+                if k_ >= 1:
+                    later.setdefault(k_, []).append((k_, w_))
+            for k_, seq_ in later.items():
+                if not _grammar_ok(seq_):
+                    ctx.violation("C12:grammar:later_engine", "engine %d (created after an earlier engine of the same process had ended) is not told begin/end properly: %r" % (k_, [w for _, w in seq_]), {"lifecycle_case": c})
             if not ok:
                 causes = _life_causes(c["body"], False)  # coverage no longer changes the lifecycle (fix 61a6cb4)
                 if causes:
@@ -613,6 +620,26 @@ def check_C02(ctx):
                     sels.append(("family:" + fam2, families[fam2]))
         for label, hs in sels:
             jobs.append((str(f), {l: {} for l in hs}, label))
+    # generated modules: every shape of module prologue (docstring, comments, one or several __future__ lines, blank lines)
+    gen_dir = ctx.work.sub("c02gen")
+    protos = []
+    for doc in ("", '"""module doc"""\n'):
+        for fut in ([], ["from __future__ import annotations"], ["from __future__ import annotations", "from __future__ import division"],
+                    ["from __future__ import annotations, division", "from __future__ import generator_stop"]):
+            for sep in ("", "\n", "# a comment\n"):
+                for init in (False, True):
+                    body = "import os\nx: int = 1 + 2\n__version__ = '1.0'\n__all__ = ['x']\ndef f(a):\n    return a * 2\ny = f(x)\n"
+                    src = doc + sep.join(l + "\n" for l in fut) + sep + body
+                    protos.append((src, init))
+    for gi, (src, init) in enumerate(protos):
+        gd = gen_dir / ("g%d" % gi)
+        gd.mkdir()
+        gp = gd / ("__init__.py" if init else "m.py")
+        gp.write_text(src)
+        for label, hs in (("all", leaves), ("family:" + rng.choice(sorted(families)), None), ("single:add", ["add"]), ("single:write", ["write"])):
+            if hs is None:
+                hs = families[label.split(":")[1]]
+            jobs.append((str(gp), {l: {} for l in hs}, "generated-prologue/" + label))
     with mp.get_context("fork").Pool(16) as pool:
         res = pool.map(sweep.check_file, jobs, chunksize=2)
     st = {"accepted": 0, "declined": 0, "declined_valid": 0, "files": len(sample), "jobs": len(jobs)}
@@ -682,12 +709,16 @@ def check_C14(ctx):
     srcs = dict((n, f["main.py"]) for n, f in progs)
     if extra.exists():
         srcs["sitesens"] = extra.read_text()
+    srcs["crlf"] = "x = 1\r\ny = x + 2\r\ndef f(a):\r\n    return a * 2\r\nz = f(y)\r\n"
+    srcs["cr_mixed"] = "x = 1\ny = [x,\r\n     2]\n"
     base = ctx.work.sub("c14")
     groups = []
     jobs = []
     gi = 0
     for rep in range(2 if ctx.quick else 6):
         chosen = rng.sample(sorted(srcs), min(len(srcs), rng.randrange(2, 5)))
+        if rep == 0 and "crlf" not in chosen:
+            chosen.append("crlf")
         hooks = leaves if rep % 2 == 0 else rng.sample(leaves, rng.randrange(3, 20))
         variants = [("seq", 0), ("seq", 1), ("seq", 12345), ("rev", 3), ("pool", 7), ("twice", 5)]
         dirs = []
@@ -695,7 +726,7 @@ def check_C14(ctx):
             d = base / ("g%d-%s-%d" % (gi, mode, seed))
             (d / "pkg").mkdir(parents=True)
             for i, n in enumerate(chosen):
-                (d / ("pkg" if i % 2 else ".") / ("%s.py" % n)).write_text(srcs[n])
+                (d / ("pkg" if i % 2 else ".") / ("%s.py" % n)).write_bytes(srcs[n].encode())
             dirs.append(d)
             jobs.append((str(d), seed, mode, list(hooks)))
         groups.append((gi, chosen, hooks, variants, dirs))
@@ -728,7 +759,7 @@ def check_C14(ctx):
         for i, n in enumerate(chosen):
             p = d0 / ("pkg" if i % 2 else ".") / ("%s.py" % n)
             o = Path(str(p) + ".orig")
-            if not o.exists() or o.read_text() != srcs[n]:
+            if not o.exists() or o.read_bytes() != srcs[n].encode():
                 ctx.violation("C14:restore", "preserved original of %s missing or different" % n, {"file": n})
     shutil.rmtree(base, ignore_errors=True)
 
@@ -749,9 +780,9 @@ def check_C15(ctx):
     for ci in range(ncase):
         kind = "threads" if ci % 3 != 2 else "generators"
         if kind == "threads":
-            acts = [[rng.choice(["w0", "w1", "w2"]), rng.randrange(1, 4)] for _ in range(rng.choice([2, 2, 3]))]
+            acts = [[rng.choice(["w0", "w1", "w2", "w3"]), rng.randrange(1, 4)] for _ in range(rng.choice([2, 2, 3]))]
         else:
-            acts = [[rng.choice(["g0", "g1"]), rng.randrange(1, 4)] for _ in range(rng.choice([2, 3]))]
+            acts = [[rng.choice(["g0", "g1", "g2", "g2"]), rng.randrange(1, 4)] for _ in range(rng.choice([2, 3]))]
         n = len(acts)
         if ci < 4 and ctx.quick or (not ctx.quick and ci < 20):
             # short workloads: enumerate a family of schedules exhaustively (all words of length 4 over the activities)
@@ -759,7 +790,7 @@ def check_C15(ctx):
         else:
             scheds = [[rng.randrange(n) for _ in range(rng.randrange(2, 12))] for _ in range(3)]
         cov = ci % 2 == 0
-        hooks = rng.sample([x for x in HOOK_POOL if x not in EXEC_LEVEL], rng.randrange(2, 8)) + ["runtime_event"] * (ci % 4 == 0)
+        hooks = rng.sample([x for x in HOOK_POOL if x not in EXEC_LEVEL], rng.randrange(2, 8)) + ["runtime_event"] * (ci % 4 == 0) + ["enter_with", "exit_with"] * (ci % 2 == 1)
         ans = [{"cls": "A0", "hooks": {h_: None for h_ in hooks}}]
         solo = {"id": "c15/%d/solo" % ci, "files": {"main.py": src}, "analyses": ans, "coverage": cov, "want": ("inst",),
                 "activities": {"kind": kind, "acts": acts, "schedule": [i for i in range(n) for _ in range(10000)][:0] or []}}
@@ -855,8 +886,18 @@ def check_C08(ctx):
     walk(h)
     cases, groups = [], []
     cand = [x for x in names if x not in EXEC_LEVEL]
+    # which hooks fire at all in each program (one all-hooks run per program)
+    probe = [{"id": "%s/probe" % pname, "files": files, "want": ("inst",), "analyses": [{"cls": "A0", "hooks": {n_: None for n_ in cand}}]} for pname, files in progs]
+    fired = {}
+    for pc, pr in zip(probe, runner.run_cases(probe)):
+        fired[pc["id"].split("/")[0]] = sorted(set(d[2] for d in (pr.get("inst") or {}).get("deliveries", []))) if "harness_error" not in pr else []
     for pname, files in progs:
-        hs = rng.sample(cand, 4 if ctx.quick else 8)
+        pool_ = [x for x in fired.get(pname, []) if x in cand] or cand
+        hs = rng.sample(pool_, min(len(pool_), 5 if ctx.quick else 10))
+        # hooks whose payload or placement depends on instrumenter-side stacks / on other rewrites: always compared
+        for must in ("_break", "_continue", "exit_for", "exit_while", "_return", "function_exit", "exception", "read_identifier", "pre_call"):
+            if must in pool_ and must not in hs and (pname in ("nested", "witness") or rng.random() < 0.4):
+                hs.append(must)
         for hk in hs:
             supersets = [("all", names)]
             f_ = [k for k, v in fam.items() if hk in v or hk == k]
@@ -933,7 +974,7 @@ def check_C03(ctx):
     ctx.stream("names", 150, 600)
     h, leaves, names = _hier()
     cases, meta = [], []
-    kinds = [("rec", "r()", "r()"), ("int", "k(6)", "k(3)"), ("mixed", "r()", "k(2)")]
+    kinds = [("rec", "r()", "r()"), ("int", "k(6)", "k(3)"), ("mixed", "r()", "k(2)"), ("bool", "k(True)", "k(False)")]
     ctxs = ["{e}", "[{e}][0]", "(lambda: {e})()", "f_({e})", "({e} if k(1) else None)"]
     pre = "from vsupport import *\ndef f_(x):\n    return x\n"
     for hk, tok in list(BIN_TOK.items()) + list(CMP_TOK.items()):
@@ -951,7 +992,7 @@ def check_C03(ctx):
                     cases.append({"id": "%s/%s/%d/%s" % (hk, kn, ci, mode), "files": {"main.py": src}, "analyses": [{"cls": "A0", "hooks": {hk: None}}], "select": names if mode == "all" else None})
                     meta.append((hk, "bin" if hk in BIN_TOK else "cmp", kn, mode))
     for hk, tok in UN_TOK.items():
-        for kn, a in (("rec", "r()"), ("int", "k(5)")):
+        for kn, a in (("rec", "r()"), ("int", "k(5)"), ("bool", "k(True)")):
             src = pre + "res = %s%s\n" % (tok, a)
             for mode in ("single", "all"):
                 cases.append({"id": "%s/%s/0/%s" % (hk, kn, mode), "files": {"main.py": src}, "analyses": [{"cls": "A0", "hooks": {hk: None}}], "select": names if mode == "all" else None})
@@ -1081,8 +1122,19 @@ def check_C06(ctx):
     cases = []
     for pname, files in progs:
         cases.append({"id": "%s/all" % pname, "files": files, "want": ("inst",), "analyses": [{"cls": "A0", "hooks": {n: None for n in names if n not in EXEC_LEVEL}}]})
-        sub = rng.sample([n for n in names if n not in EXEC_LEVEL], 6)
+        cand = [n for n in names if n not in EXEC_LEVEL]
+        sub = rng.sample(cand, 6)
         cases.append({"id": "%s/sub" % pname, "files": files, "want": ("inst",), "analyses": [{"cls": "A0", "hooks": {n: None for n in sub}}]})
+        # one construct family at a time (hooks of a single statement kind), and a single leaf
+        fams = [["enter_while", "exit_while", "normal_exit_while"], ["enter_for", "exit_for", "normal_exit_for"], ["enter_if", "exit_if"],
+                ["_break", "_continue"], ["enter_try", "clean_exit_try", "exception"], ["function_enter", "function_exit", "_return"],
+                ["read_identifier", "read_attribute", "read_subscript"], ["write", "delete"], ["pre_call", "post_call"]]
+        for fi, fam_ in enumerate(rng.sample(fams, 3)):
+            cases.append({"id": "%s/fam%d" % (pname, fi), "files": files, "want": ("inst",), "analyses": [{"cls": "A0", "hooks": {n: None for n in fam_}}]})
+        # a history: instrument for some hooks, restore the source, re-instrument for more hooks (the id map is re-loaded and extended)
+        first = rng.sample(cand, 5)
+        cases.append({"id": "%s/hist" % pname, "files": files, "want": ("inst",), "pre_select": first,
+                      "analyses": [{"cls": "A0", "hooks": {n: None for n in sorted(set(first + rng.sample(cand, 8)))}}]})
     res = runner.run_cases(cases)
     for c, r in zip(cases, res):
         if "harness_error" in r:
@@ -1092,6 +1144,13 @@ def check_C06(ctx):
         if (r.get("origs") or {}).get("main.py") != src:
             ctx.violation("C06:orig_bytes", "the preserved original differs from the file before instrumentation", {"case": c})
             continue
+        for rel, fm in (r.get("first_idmaps") or {}).items():
+            later = idm_all = r["idmaps"].get(next((k for k in r["idmaps"] if k.endswith(rel + ".orig")), ""), {})
+            for k_, v_ in fm["iid_to_location"].items():
+                was = [v_["start_line"], v_["start_column"], v_["end_line"], v_["end_column"]]
+                if isinstance(later, dict) and later.get(int(k_)) != was:
+                    ctx.violation("C06:id_changed_meaning", "id %s meant %r after the first instrumentation and %r after re-load + re-instrumentation" % (k_, was, later.get(int(k_)) if isinstance(later, dict) else later), {"case": c})
+                    break
         tree = cst.parse_module(src)
         # the framework's locator (utils/nodeLocator.Exact) returns the node whose PositionProvider extent equals the
         # stored location; resolved once per source here (the locator itself re-wraps the tree on every call)
